@@ -10,6 +10,22 @@ from harness import core
 
 MODULE = 'PyPhysim.Properties.C15'
 DRIVER = 'drv_c15'
+CLAIM = {
+    'technique': 'Lean 4 theorems on definitions regenerated from the source (prefix-xor doubling, telescoping, '
+                 'one-bit step induction), PSK chord geometry over R, + exact table correspondence for the label maps',
+    'text': 'gray2binary/binary2gray/xor/count_bits/int2bits/level2bits are re-translated from /repo into Lean on '
+            'every run and the theorems (mutual inverse on [0,2^64), range closure, one-bit steps incl. wrap-around, '
+            'count_bits = popcount with termination, bit errors = Hamming distance) are kernel-checked against them. '
+            'PSK: for every M=2^m and every phase offset, any two labels whose points are at minimum distance differ '
+            'in one bit (chord monotonicity over R + Gray step theorems). QAM 4/16: whole-table kernel evaluation. '
+            'The PSK/QAM label maps are hand models tied by exact comparison of every constellation table with '
+            'natural[model index]; two known findings (setPhaseOffset order, QAM>=64 labelling) carry proved '
+            'negative witnesses and are replayed on the code by the oracle.',
+    'note': 'Trusted: Lean kernel, axioms {propext, Classical.choice, Quot.sound}, harness/translate.py integer '
+            'fragment, the table correspondence for fundamental.py label maps (and the C01 table correspondence for '
+            'the natural constellation). QAM Gray theorem is proved for orders 4 and 16 only because the code is NOT '
+            'Gray labelled from 64 on (known finding, pinned by an existing test).',
+}
 
 
 def _impl():
